@@ -580,3 +580,58 @@ pub fn gen_grey(rng: &mut Rng, thorough: bool) -> Spec {
     }
     spec
 }
+
+/// Two branches that only a word mixing letters from far-apart parts of a very large alphabet tells apart:
+/// init -x0-> P0 -L0-> P1 -L1-> ... -L(d-1)-> final   and   init -x1-> Q0 -L0-> Q1 ... -L(d-1)-> sink,
+/// with `fillers` one-character classes (self loops on the final state) between consecutive letters L_i, so that the
+/// letters are more than `fillers` alphabet indices apart. All 2d + 4 states are pairwise inequivalent.
+pub fn far_letters_spec(depth: u32, fillers: u32) -> Spec {
+    let mut calls = Vec::new();
+    let (init, fin, sink) = (0u32, 1u32, 2u32);
+    let p = |i: u32| 10 + i;
+    let q = |i: u32| 100 + i;
+    let gap = 2 * fillers + 0x100;
+    let letter = |i: u32| 0x1000 + i * gap;
+    calls.push(Call::Trans(init, 0x30, 0x30, p(0)));
+    calls.push(Call::Trans(init, 0x31, 0x31, q(0)));
+    calls.push(Call::Default(init, sink));
+    for i in 0..depth {
+        let last = i + 1 == depth;
+        calls.push(Call::Trans(p(i), letter(i), letter(i), if last { fin } else { p(i + 1) }));
+        calls.push(Call::Default(p(i), sink));
+        calls.push(Call::Trans(q(i), letter(i), letter(i), if last { sink } else { q(i + 1) }));
+        calls.push(Call::Default(q(i), sink));
+    }
+    for i in 0..depth {
+        for f in 0..fillers {
+            let c = letter(i) + 0x10 + 2 * f;
+            calls.push(Call::Trans(fin, c, c, fin));
+        }
+    }
+    calls.push(Call::Default(fin, sink));
+    calls.push(Call::Default(sink, sink));
+    calls.push(Call::Final(fin));
+    Spec { init, calls }
+}
+
+/// `nstates` states that each have `labels` single-character transitions, two thirds of them explicit (to three
+/// rotating targets, the third being the state's default); the rows of the states interleave in a compact table
+pub fn many_successors_spec(nstates: u32, labels: u32) -> Spec {
+    let mut calls = Vec::new();
+    let sink = nstates;
+    for st in 0..nstates {
+        for i in 0..labels {
+            let c = 0x100 + 3 * i + st;
+            let tgt = match (i + st) % 3 {
+                0 => (st + 1) % nstates,
+                1 => (st + 2) % nstates,
+                _ => sink,
+            };
+            calls.push(Call::Trans(st, c, c, tgt));
+        }
+        calls.push(Call::Default(st, sink));
+    }
+    calls.push(Call::Default(sink, sink));
+    calls.push(Call::Final(1 % nstates));
+    Spec { init: 0, calls }
+}
